@@ -33,3 +33,43 @@ macro_rules! registry {
 }
 
 registry!(c01, c02, c03, c04, c05, c06, c07, c08, c09, c10, c11, c12, c13, c14, c15, c16, c17, c18, c19);
+
+/// Coverage-guided entry used by the libFuzzer targets in /verif/fuzz: `data[0]` picks the
+/// dimension / sub-generator, the remaining bytes are the random stream of that property's
+/// proptest strategy.  Returns (replay label, violation, case) for the first unknown violation.
+pub fn fuzz_bytes(id: &str, data: &[u8], ctx: &mut Ctx) -> Option<(String, Violation, Value)> {
+    if data.len() < 2 {
+        return None;
+    }
+    let sel = data[0] as usize;
+    let dim = 2 + sel % 4;
+    let rest = &data[1..];
+    macro_rules! go {
+        ($label:expr, $strat:expr, $exec:path) => {{
+            let label: String = $label;
+            ctx.run_bytes(&label, $strat, rest, &|c, l| $exec(c, l)).map(|(v, c)| (label.clone(), v, c))
+        }};
+    }
+    match id {
+        "C02" => go!(format!("insertion_history_d{dim}"), c02::strategy(dim, 10, false), c02::exec),
+        "C03" => go!(format!("rollback_history_d{dim}"), c03::strategy(dim, 8), c03::exec),
+        "C04" => go!(format!("history_d{dim}"), c04::strategy(dim, 8), c04::exec),
+        "C06" => go!(format!("removal_history_d{dim}"), c06::strategy(dim, 10, false), c06::exec),
+        "C07" => go!(format!("flip_history_d{dim}"), c07::strategy(dim, 10), c07::exec),
+        "C08" => go!(format!("repair_history_d{dim}"), c08::strategy(dim, 8), c08::exec),
+        "C09" => go!(format!("duplicate_history_d{dim}"), c09::strategy(dim, 8), c09::exec),
+        "C11" => go!(format!("hull_history_d{dim}"), c11::strategy(dim, 8), c11::exec),
+        "C12" => go!(format!("random_d{dim}"), c12::tuple_strategy(dim), c12::exec),
+        "C15" => go!(format!("query_history_d{dim}"), c15::strategy(dim, 10), c15::exec),
+        "C17" => go!(format!("lists_d{dim}"), c17::list_strategy(dim, 60), c17::exec),
+        "C18" => go!(format!("simplices_d{}", 1 + sel % 5), c18::strategy(1 + sel % 5), c18::exec),
+        "C19" => {
+            if sel % 8 == 7 {
+                go!(format!("pb_c01x_d{dim}"), c19::extreme_batch_strategy(dim), c19::exec_c01_monitor)
+            } else {
+                go!(format!("adversarial_history_d{dim}"), c19::strategy(dim, 14), c19::exec)
+            }
+        }
+        _ => None,
+    }
+}
